@@ -484,4 +484,77 @@ Section Redo2.
       + destruct (mget _ s) as [[m|]|]; discriminate.
       + destruct sv as [v|]; [|discriminate]. destruct (snd (op_run size_of s (OPull n (Some v) ord))); discriminate.
   Qed.
+
+  (** ** restarts that do not prune (OLLAMA_NOPRUNE, or — already part of [recover] — an unreadable manifest somewhere) *)
+  Definition recover_np (s : store) : store := startup_noprune s.
+
+  Lemma recover_np_inv s : Inv s -> Inv (recover_np s).
+  Proof. intros HI. unfold recover_np, startup_noprune. eapply Rok_inv; [exact HI | apply (fix_blobs_ok size_of), HI]. Qed.
+
+  Lemma recover_np_mans s : mans (recover_np s) = mans s.
+  Proof. unfold recover_np, startup_noprune. apply (Ext_mans _ _ (fix_blobs_ext (init s))). Qed.
+
+  Lemma recover_np_frame s n m l :
+    Inv s -> listed s n m -> In l (all_layers m) -> bget (dhex (ldg l)) (recover_np s) = bget (dhex (ldg l)) s.
+  Proof.
+    intros HI Hl Hin. unfold recover_np, startup_noprune. destruct (fix_blobs_ok size_of s HI) as [E Hok]. rewrite E.
+    eapply (ok_trace_blob size_of None); try eassumption. discriminate.
+  Qed.
+
+  (** the manifests an operation leaves, and its answer, only depend on the manifests it starts from (given the
+      invariant, and for a create that its base is available alike) *)
+  Lemma exec_mans_congr s1 s2 o :
+    Inv s1 -> Inv s2 -> mans s2 = mans s1 ->
+    (match o with
+     | OCreate q => base_same s1 s2 q = true \/ (exists src, cr_base q = BFrom src)
+     | OPull _ (Some v) _ => served_ok size_of v = true /\ length (sv_contents v) = length (all_layers (sv_manifest v)) /\ forallb is_some (sv_contents v) = true
+     | OBlob _ _ | OStartup => False
+     | _ => True
+     end) ->
+    mans (exec s2 o) = mans (exec s1 o) /\ snd (op_run size_of s2 o) = snd (op_run size_of s1 o).
+  Proof.
+    intros HI1 HI2 Hm Hside. assert (Hrn := readable_names_mans s1 s2 Hm).
+    destruct o as [d c|q|a b|n|n [v|] ord|]; try contradiction.
+    - assert (Hb : snd (create_build size_of (layer_from_layer size_of) false s2 q) = snd (create_build size_of (layer_from_layer size_of) false s1 q)).
+      { destruct Hside as [Hbs|[src Hsrc]].
+        - apply (build_same s1 s2 q HI1 HI2 Hbs). intros x _. apply (mget_mans _ _ x Hm).
+        - rewrite !create_build_snd, Hsrc, !(base_from_pure size_of) by assumption. rewrite (mget_mans _ _ src Hm). reflexivity. }
+      split; [rewrite !(exec_create_mans size_of), Hb, Hrn, Hm; reflexivity | rewrite !(create_result size_of), Hb; reflexivity].
+    - split; [rewrite !(exec_copy_mans size_of), Hrn, (mget_mans _ _ _ Hm), Hm; reflexivity|].
+      cbn [op_run]. unfold op_copy, op_copy_gen. rewrite Hrn, (mget_mans _ _ _ Hm).
+      destruct (name_eqb _ _); [reflexivity|]. destruct (mget _ s1); reflexivity.
+    - split; [rewrite !(exec_delete_mans size_of), Hrn, (mget_mans _ _ _ Hm), Hm; reflexivity|].
+      cbn [op_run]. unfold op_delete, op_delete_gen. rewrite Hrn, (mget_mans _ _ _ Hm). destruct (mget _ s1) as [[m|]|]; reflexivity.
+    - destruct Hside as [Hsv [Hl Hs]].
+      destruct (exec_pull_mans size_of s1 n v ord HI1 Hsv Hl Hs) as [E1 R1]. destruct (exec_pull_mans size_of s2 n v ord HI2 Hsv Hl Hs) as [E2 R2].
+      split; [rewrite E1, E2, Hrn, Hm; reflexivity | congruence].
+    - split; [exact Hm | reflexivity].
+  Qed.
+
+  (** the general redo statement, for the restart that does not prune *)
+  Theorem redo_general_noprune s o k :
+    Inv s -> op_guard s o = true -> has_unreadable s = false -> redo_guard s o k = true ->
+    (match o with OCreate q => exists src, cr_base q = BFrom src | _ => True end) ->
+    let s1 := recover_np (crash s o k) in
+    (forall n, mget n (exec s1 o) = mget n (exec s o)) /\
+    (snd (op_run size_of s1 o) = snd (op_run size_of s o) \/
+     (exists n, o = ODelete n) /\ snd (op_run size_of s1 o) = RNotFound /\ snd (op_run size_of s o) = ROk).
+  Proof.
+    intros HI Hg Hu Hrg Hfrom s1.
+    destruct (redo_general s o k HI Hg Hu Hrg) as [Hm [_ [_ Hres]]].
+    set (s0 := recover (crash s o k)) in *.
+    assert (HIc : Inv (crash s o k)) by (apply crash_inv; assumption).
+    assert (HI0 : Inv s0) by (apply recover_inv, HIc). assert (HI1 : Inv s1) by (apply recover_np_inv, HIc).
+    assert (Hmm : mans s1 = mans s0) by (unfold s1, s0; rewrite recover_np_mans, (recover_mans size_of); reflexivity).
+    assert (Hside : match o with
+                    | OCreate q => base_same s0 s1 q = true \/ (exists src, cr_base q = BFrom src)
+                    | OPull _ (Some v) _ => served_ok size_of v = true /\ length (sv_contents v) = length (all_layers (sv_manifest v)) /\ forallb is_some (sv_contents v) = true
+                    | OBlob _ _ | OStartup => False
+                    | _ => True
+                    end).
+    { unfold redo_guard in Hrg. apply andb_true_iff in Hrg as [_ Hrg]. destruct o as [d c|q|a b|n|n [v|] ord|]; try discriminate; auto.
+      apply andb_true_iff in Hrg as [Hl Hs]. apply Nat.eqb_eq in Hl. split; [exact Hg | auto]. }
+    destruct (exec_mans_congr s0 s1 o HI0 HI1 Hmm Hside) as [C1 C2].
+    split; [intros n; unfold mget; rewrite C1; apply Hm | rewrite C2; exact Hres].
+  Qed.
 End Redo2.
